@@ -5,7 +5,7 @@
     committed copy is the table of the tree with fixes/C15-pshandler-loadedmu.patch applied; every run of the
     check regenerates the table from the current tree and re-proves the obligations below against it). *)
 From Coq Require Import List NArith Bool Lia.
-From V Require Import Race.Lockset Race.PsView Race.Generated_Accesses.
+From V Require Import Race.Lockset Race.Tight Race.PsView Race.Generated_Accesses.
 Import ListNotations.
 
 (** Generic: for ANY access table T, any assignment of goroutine classes to threads and any well-formed trace
@@ -43,6 +43,27 @@ Definition C15_sched_lockset_full : Prop := lockset_ok accesses = true.
 Theorem C15_sched_lockset_refuted : ~ C15_sched_lockset_full.
 Proof. unfold C15_sched_lockset_full. vm_compute. discriminate. Qed.
 Print Assumptions C15_sched_lockset_refuted.
+
+(** The check is exact for the table semantics (converse of C15_lockset_sound): a rejected table has a
+    well-formed conforming execution with two unordered conflicting accesses. *)
+Theorem C15_lockset_tight : forall T : table,
+  lockset_ok T = false ->
+  exists (cls_of : tid -> N) (tr : trace), wf_trace tr /\ conforms T cls_of tr /\ safe_init T tr /\ ~ race_free tr.
+Proof. exact lockset_tight. Qed.
+Print Assumptions C15_lockset_tight.
+
+(** Full race freedom of everything the scheduler's table describes ... *)
+Definition C15_sched_race_free_full : Prop :=
+  forall (cls_of : tid -> N) (tr : trace), wf_trace tr -> conforms accesses cls_of tr -> safe_init accesses tr -> race_free tr.
+
+(** ... is false: some execution allowed by the table races (one of the recorded findings). *)
+Theorem C15_sched_race_free_refuted : ~ C15_sched_race_free_full.
+Proof.
+  intros H. destruct (lockset_tight accesses) as (c & tr & Hwf & Hc & Hs & Hr).
+  - vm_compute. reflexivity.
+  - apply Hr. apply (H c tr Hwf Hc Hs).
+Qed.
+Print Assumptions C15_sched_race_free_refuted.
 
 (** Partial: excluding exactly the recorded (function, location) findings, the table passes ... *)
 Theorem C15_sched_lockset_partial : lockset_ok_except (waive waived) accesses = true.
